@@ -3,6 +3,7 @@ package h_c06
 import (
 	"bytes"
 	"context"
+	"go.uber.org/zap"
 	"time"
 
 	"github.com/yandex/pandora/core"
@@ -39,7 +40,7 @@ func drive(ctx context.Context, cancel func(), agg core.Aggregator, reporters in
 	mk func(r, i int) core.Sample, reported func(r, i int), runDone func(err error)) {
 	done := make(chan struct{}, reporters)
 	go func() {
-		err := agg.Run(ctx, core.AggregatorDeps{})
+		err := agg.Run(ctx, core.AggregatorDeps{Log: zap.NewNop()})
 		runDone(err)
 	}()
 	for r := 0; r < reporters; r++ {
